@@ -30,7 +30,11 @@ def run(sx, topo, order, rots, spec, force=None):
     mesh, blocks = g1.build_mesh(cells, order, rots)
     chops = g1.place_chops(sx, blocks, c01._spec(spec))
     outcome = g1.grade(mesh, len(cells), via_write=True)
-    sx.reach(outcome)
+    sx.reach(outcome if not outcome.startswith("crash") else "crash")
+    if outcome.startswith("crash"):
+        sx.prove(False, "grading a mesh either succeeds or fails with the undefined-/inconsistent-grading error, not with "
+                 + outcome[6:], f"%s:crash:{topo}" % PROPERTY, info={"exception": outcome[6:]})
+        return outcome
     lw = dict(g1.LAST_WRITE)
     if outcome == "ok":
         sx.prove(lw["complete"], "a successful write() leaves a complete dictionary (all sections, one hex per block)",
